@@ -162,11 +162,15 @@ class Tracked(Generic[V]):
         """Add a new listener for changes"""
         self._listeners[listener] = None
 
-    async def set(self, to: V):
-        """Set the value"""
+    def __change__(self, to: V):
+        """Set the value immediately, for callers that are not allowed to wait"""
         self._value = to
         for listener in list(self._listeners):
             listener.__on_changed__()
+
+    async def set(self, to: V):
+        """Set the value"""
+        self.__change__(to)
         await postpone()
 
     # boolean operations producing an AsyncComparison
